@@ -400,6 +400,43 @@ def run(db: DB, rep: Report) -> None:
     if n_l12 < 2:
         raise AnalysisError("fewer than 2 YAML load sites found in teaal/parse/yaml.py")
 
+    # ---- L14: a level name that is rewritten in place is parsed once ----------------------
+    rep.rule("L14", "a specification field overwritten with its parsed form is never parsed a second time", 1)
+    ai = db.func("teaal.parse.arch.Architecture.__init__")
+    n_l14 = 0
+    for c in walk_no_nested(ai.node):
+        if not (isinstance(c, ast.Call) and isinstance(c.func, ast.Attribute) and c.func.attr == "parse" and
+                norm(c.func.value) == "LevelParser" and c.args and isinstance(c.args[0], ast.Subscript)):
+            continue
+        n_l14 += 1
+        slot = norm(c.args[0])
+        holder = c.args[0].value
+        lps = [p_ for p_ in paths.parents(c, ai.node) if isinstance(p_, (ast.For, ast.While))]
+        rewrites = [n for n in walk_no_nested(ai.node) if isinstance(n, ast.Assign) and
+                    any(norm(t) == slot for t in n.targets) and lps and
+                    any(p_ is lps[0] for p_ in paths.parents(n, ai.node))]
+        ok = True
+        why = ""
+        if rewrites and isinstance(holder, ast.Name):
+            # in-place rewrite: the dictionary must be recognised when it comes round again
+            # (YAML aliases make one dictionary reachable along several paths)
+            def seen_test(t: ast.AST) -> bool:
+                return isinstance(t, ast.Compare) and len(t.ops) == 1 and isinstance(t.ops[0], (ast.In, ast.NotIn)) \
+                    and isinstance(t.left, ast.Call) and norm(t.left.func) == "id" and \
+                    norm(t.left.args[0]) == holder.id
+            guarded = any(seen_test(a) and (isinstance(a.ops[0], ast.NotIn) == p_)
+                          for t, pol in paths.guards(c, stop=ai.node) for a, p_ in paths.conjuncts(t, pol))
+            ok = guarded
+            why = "%s is overwritten at %s with the parsed name" % (slot, db.loc(rewrites[0]))
+        rep.check("L14", ok, db.loc(c), ai.short, "parse-once:" + slot,
+                  "%s is parsed at most once per dictionary" % slot,
+                  "Architecture.__init__ parses %s and %s, but nothing keeps a dictionary that is reachable "
+                  "twice (a YAML alias shared by two configurations or two parents) from being processed "
+                  "again: the second visit parses the rewritten name, so 'PE[0..7]' ends with 1 instance "
+                  "instead of 8" % (slot, why))
+    if n_l14 < 1:
+        raise AnalysisError("LevelParser.parse(<tree>[...]) not found in Architecture.__init__")
+
     # ---- L13: whitespace between tokens is insignificant everywhere ----------------------
     rep.rule("L13", "every grammar ignores inline whitespace and defines no multi-part terminal", 5)
     for gid, (text, node) in sorted(texts.items()):
@@ -809,6 +846,8 @@ def mutants(db: DB):
     eq, pt, st, lv = ("teaal/parse/equation.py", "teaal/parse/partitioning.py",
                       "teaal/parse/spacetime.py", "teaal/parse/level.py")
     return [
+        M("revert F7 fix (aliased level parsed twice)", "teaal/parse/arch.py",
+          "                if id(tree) in parsed:\n                    continue\n                parsed.add(id(tree))\n", "", "L14"),
         M("one shared YAML loader", "teaal/parse/yaml.py",
           "        yaml = YAML(typ='safe', pure=True)\n        return yaml.load(string)",
           "        return _LOADER.load(string)", "L12"),
